@@ -178,6 +178,8 @@ def build_ctokenizer(tag="ctok", sanitize=False):
     if sanitize:
         flags += ["-fsanitize=address,undefined", "-fno-omit-frame-pointer"]
     with _Lock("cbuild"):
+        if os.path.exists(so):
+            return so, ""
         for old in os.listdir(out):
             if old.endswith(".so"):
                 os.unlink(os.path.join(out, old))
@@ -358,3 +360,146 @@ def coq_eval(name, text, timeout=600):
     open(p, "w").write(text)
     rc, out = sh(["coqc", "-Q", COQ, "MW", "-Q", d, "Cases", p], timeout=timeout)
     return rc, out
+
+
+# --------------------------------------------------------------------------- crash-proof parallel map
+
+def _child_run(func, items, wfd, mem_bytes, cpu_s):
+    import pickle
+    import resource
+    try:
+        if mem_bytes:
+            resource.setrlimit(resource.RLIMIT_AS, (mem_bytes, mem_bytes))
+        if cpu_s:
+            resource.setrlimit(resource.RLIMIT_CPU, (cpu_s, cpu_s + 5))
+        resource.setrlimit(resource.RLIMIT_CORE, (0, 0))
+        res = func(items)
+        data = pickle.dumps(("ok", res))
+    except BaseException as e:  # noqa: BLE001
+        import traceback
+        data = pickle.dumps(("pyexc", "%r\n%s" % (e, traceback.format_exc()[-1500:])))
+    with os.fdopen(wfd, "wb") as w:
+        w.write(data)
+    os._exit(0)
+
+
+def run_isolated(func, items, timeout=120, mem_bytes=4 << 30, cpu_s=None):
+    """Run func(items) in a forked child under resource limits.
+    Returns ('ok', result) | ('pyexc', text) | ('crash', signal/exit) | ('timeout', None)."""
+    import pickle
+    import select
+    import signal
+    rfd, wfd = os.pipe()
+    pid = os.fork()
+    if pid == 0:
+        os.close(rfd)
+        _child_run(func, items, wfd, mem_bytes, cpu_s)
+    os.close(wfd)
+    chunks = []
+    deadline = time.time() + timeout
+    status = None
+    with os.fdopen(rfd, "rb") as r:
+        while True:
+            left = deadline - time.time()
+            if left <= 0:
+                os.kill(pid, signal.SIGKILL)
+                os.waitpid(pid, 0)
+                return ("timeout", None)
+            ready, _, _ = select.select([r], [], [], min(left, 1.0))
+            if ready:
+                b = r.read(1 << 20) if False else os.read(r.fileno(), 1 << 20)
+                if not b:
+                    break
+                chunks.append(b)
+    _pid, st = os.waitpid(pid, 0)
+    data = b"".join(chunks)
+    if os.WIFSIGNALED(st):
+        return ("crash", "signal %d" % os.WTERMSIG(st))
+    if not data:
+        return ("crash", "exit %d without a result" % os.WEXITSTATUS(st))
+    try:
+        return pickle.loads(data)
+    except Exception as e:  # noqa: BLE001
+        return ("crash", "unreadable result: %r" % (e,))
+
+
+def robust_map(func, items, chunk=256, timeout=180, procs=None, mem_bytes=4 << 30):
+    """func(list_of_items) -> list of results (same length).  Items whose processing crashes the
+    interpreter, exhausts memory or hangs are isolated by bisection and reported as
+    ('CRASH', why) / ('TIMEOUT', None) / ('PYEXC', text) in place of their result.
+    Children are forked from this (single) thread and multiplexed with select()."""
+    import pickle
+    import select
+    import signal
+    items = list(items)
+    procs = procs or min(16, os.cpu_count() or 4)
+    todo = [(i, min(i + chunk, len(items))) for i in range(0, len(items), chunk)][::-1]
+    results = {}
+    active = {}     # rfd -> dict(pid, lo, hi, deadline, buf)
+
+    def launch(lo, hi):
+        rfd, wfd = os.pipe()
+        sys.stdout.flush()
+        sys.stderr.flush()
+        pid = os.fork()
+        if pid == 0:
+            os.close(rfd)
+            for fd in list(active):
+                try:
+                    os.close(fd)
+                except OSError:
+                    pass
+            _child_run(func, items[lo:hi], wfd, mem_bytes, None)
+        os.close(wfd)
+        active[rfd] = {"pid": pid, "lo": lo, "hi": hi, "deadline": time.time() + timeout, "buf": []}
+
+    def finish(rfd, status, payload):
+        a = active.pop(rfd)
+        os.close(rfd)
+        lo, hi = a["lo"], a["hi"]
+        if status == "ok" and isinstance(payload, list) and len(payload) == hi - lo:
+            results[lo] = payload
+            return
+        if hi - lo == 1:
+            tag = {"crash": "CRASH", "timeout": "TIMEOUT", "pyexc": "PYEXC", "ok": "PYEXC"}[status]
+            results[lo] = [(tag, payload)]
+            return
+        mid = (lo + hi) // 2
+        todo.append((mid, hi))
+        todo.append((lo, mid))
+
+    while todo or active:
+        while todo and len(active) < procs:
+            launch(*todo.pop())
+        ready, _, _ = select.select(list(active), [], [], 0.5)
+        for rfd in ready:
+            b = os.read(rfd, 1 << 20)
+            if b:
+                active[rfd]["buf"].append(b)
+                continue
+            a = active[rfd]
+            _pid, st = os.waitpid(a["pid"], 0)
+            data = b"".join(a["buf"])
+            if os.WIFSIGNALED(st):
+                finish(rfd, "crash", "signal %d" % os.WTERMSIG(st))
+            elif not data:
+                finish(rfd, "crash", "exit %d without a result" % os.WEXITSTATUS(st))
+            else:
+                try:
+                    status, payload = pickle.loads(data)
+                except Exception as e:  # noqa: BLE001
+                    status, payload = "crash", "unreadable result: %r" % (e,)
+                finish(rfd, status, payload)
+        now = time.time()
+        for rfd in [r for r, a in active.items() if a["deadline"] < now]:
+            a = active[rfd]
+            try:
+                os.kill(a["pid"], signal.SIGKILL)
+            except OSError:
+                pass
+            os.waitpid(a["pid"], 0)
+            finish(rfd, "timeout", None)
+    out = []
+    for lo in sorted(results):
+        out += results[lo]
+    return out
